@@ -48,7 +48,7 @@ def gen(rng, tier):
     n = 120 if tier == "quick" else 1500
     for k in range(n):
         sense = rng.choice([1, 2, 1, 2, 0]) if rng.random() < 0.95 else rng.choice([1, 2])
-        inst, info = GI.rand_instance(rng, sense=sense, allow_unset=(rng.random() < 0.05))
+        inst, info = GI.rand_instance(rng, sense=sense, allow_unset=(rng.random() < 0.05), rich=True)
         cases.append({"op": "as_min", "input": inst, "stream": "as_min/%d" % sense})
     m = 300 if tier == "quick" else 3000
     for k in range(m):
